@@ -163,6 +163,11 @@ def gen_case(rng, tier, ctx, i):
         if kind in ("comps", "mixed"):
             for _ in range(rng.randint(1, 3)):
                 args.append(recipes.gen_model(rng, o2, pool, idg, [], 1, top=False))
+            if rng.random() < 0.12:
+                # a sub-proposition without sub-propositions of its own is a constant (All() is 1, Any() is 0): it still counts in its parent
+                args.append(rng.choice([{"k": "All", "id": None, "args": []}, {"k": "Any", "id": None, "args": []},
+                                        {"k": "AtLeast", "id": None, "args": [], "value": rng.choice([0, 1]), "sign": rng.choice([1, -1])}]))
+                ctx.count("count:childless-sub-proposition")
         n = len(args)
         rec = {"k": "AtLeast", "id": idg.next() if rng.random() < 0.5 else None, "args": args,
                "value": rng.randint(-3, n + 2), "sign": rng.choice([-1, 1, None])}
